@@ -119,6 +119,18 @@ impl CustomRoller {
     self.write_internal(buf, now)
   }
 
+  /// Verification hook (cfg `excsn_fibre_verif` only): constructor with an injected clock.
+  #[cfg(excsn_fibre_verif)]
+  pub fn verif_new_at_time(policy: RollingPolicyInternal, now: DateTime<Utc>) -> Result<Self> {
+    Self::new_at_time(policy, now, None)
+  }
+
+  /// Verification hook (cfg `excsn_fibre_verif` only): write with an injected clock.
+  #[cfg(excsn_fibre_verif)]
+  pub fn verif_write_at_time(&mut self, buf: &[u8], now: DateTime<Utc>) -> std::io::Result<usize> {
+    self.write_internal(buf, now)
+  }
+
   /// Opens the active log file, creating it if necessary.
   fn open_file(path: &Path) -> Result<(BufWriter<File>, u64)> {
     let file = OpenOptions::new()
